@@ -321,6 +321,24 @@ impl OnExecuted<'_> {
             }
         }
     }
+
+    /// Public entry to the private `extend_competition_time`, used only by the solver-based
+    /// checks in `/verif` (`--cfg gmsol_verif`).
+    #[cfg(gmsol_verif)]
+    pub fn verif_extend_competition_time(
+        comp: &mut Competition,
+        part: &Participant,
+        volume: u128,
+    ) -> Result<()> {
+        Self::extend_competition_time(comp, part, volume)
+    }
+
+    /// Public entry to the private `update_leaderboard`, used only by the solver-based checks
+    /// in `/verif` (`--cfg gmsol_verif`).
+    #[cfg(gmsol_verif)]
+    pub fn verif_update_leaderboard(comp: &mut Competition, part: &Participant) {
+        Self::update_leaderboard(comp, part)
+    }
 }
 
 /// Accounts for other callbacks.
